@@ -24,9 +24,9 @@ def gen_cases(chk):
     rng = vlib.Rng(chk.seed).fork('C08')
     thorough = chk.tier == 'thorough'
     cases = []
-    ids = [1, 2, 0x7fffffff, -1, -2 ** 31]
+    ids = [1, 2, 10, 16, 0xff, 0x7fffffff, -1, -2 ** 31]
     # argument order and result register; callee-saved registers survive; any dst field in the call slot
-    for _ in range(40 if thorough else 12):
+    for _ in range(600 if thorough else 24):
         hid = rng.choice(ids)
         hname = rng.choice(['mix', 'clobber'])
         args = [rng.choice(B.B64) if rng.chance(2, 3) else rng.next() for _ in range(5)]
